@@ -1,8 +1,14 @@
-"""In-memory persistence driver that reports samples support, so that `history.is_enabled()` follows
-`settings.core.history_support` and the HISTORY function can be exercised both enabled and disabled (C03)."""
+"""In-memory persistence driver whose samples support can be switched by the harness (C03).
+
+`history.is_enabled()` is `persist.is_samples_supported() and settings.core.history_support`: with this driver the
+harness can put the hub in each of the configurations "history on" (samples supported and history_support on) and
+"history off" (driver without samples support, or history_support off, or both), so that the HISTORY function is
+exercised both as a known and as an unknown function."""
 from qtoggleserver.drivers.persist import JSONDriver
 
 
 class SamplesDriver(JSONDriver):
+    samples_supported = True        # class attribute, switched by harness/props/c03.py:_configure
+
     def is_samples_supported(self) -> bool:
-        return True
+        return bool(type(self).samples_supported)
